@@ -56,6 +56,9 @@ QUICK_FILES = [
 
 HOP_BY_HOP = ('connection', 'keep-alive', 'proxy-authenticate', 'proxy-authorization', 'te', 'trailers',
               'transfer-encoding', 'upgrade')
+STD_METHODS = sorted(['CONNECT', 'DELETE', 'GET', 'HEAD', 'OPTIONS', 'PATCH', 'POST', 'PUT', 'TRACE', 'CHECKIN', 'CHECKOUT',
+                      'COPY', 'LOCK', 'MKCOL', 'MOVE', 'PROPFIND', 'PROPPATCH', 'REPORT', 'UNCHECKIN', 'UNLOCK', 'UPDATE',
+                      'VERSION-CONTROL', 'WEBSOCKET'])      # = Dispatch!Combined
 INTERNAL_FNS = ('method_not_allowed', 'method_not_allowed_responder_async', 'options_responder', 'options_responder_async')
 
 
@@ -211,6 +214,8 @@ def status_valid(st):
         return bool(re.fullmatch(r'[0-9]{3} [^\r\n]*[^\r\n ]', st))
     if isinstance(st, dict) and st.get('o') == 'http.HTTPStatus':
         return True
+    if isinstance(st, dict) and set(st) == {'b'}:          # a byte string is taken like the text it spells
+        return status_valid(st['b'])
     return False
 
 
@@ -223,7 +228,8 @@ def project_emission(x, cfg, res, escaped):
     cts = res.header_all('content-type')
     cls = res.header_all('content-length')
     facts = {'norequest': False, 'escaped': bool(escaped), 'snap': snap is not None, 'badstatus': False,
-             'hopbyhop': False, 'ctunknown': False, 'falsystream': False}
+             'hopbyhop': False, 'ctunknown': False, 'falsystream': False,
+             'ownrender': bool(snap and snap.get('own_render'))}
     # ---- how the exchange ended
     if asgi:
         recv = x.get('received') or []
@@ -439,7 +445,7 @@ def project_dispatch(x, cfg, res):
     """part D / S: the inspected configuration in Dispatch's vocabulary + what was observed"""
     obs = {'kind': 'none', 'id': -1, 'sfx': '', 'kw': [], 'status': res.status if isinstance(res.status, int) else -1,
            'hasAllow': False, 'allow': []}
-    d = {'routed': False, 'stdrouter': False, 'tmplok': False, 'sinkok': False, 'orderok': False, 'whook': False,
+    d = {'routed': False, 'stdrouter': False, 'custommethods': False, 'tmplok': False, 'sinkok': False, 'orderok': False, 'whook': False,
          'middleware': True, 'ownhandlers': True, 'm': '', 'p': [], 'routes': [], 'asm': [], 'sbs': False, 'obs': obs}
     allow = res.header_all('allow')
     if allow:
@@ -455,8 +461,9 @@ def project_dispatch(x, cfg, res):
         return d
     d['stdrouter'] = True
     d['sbs'] = bool(cfg['sbs'])
-    d['middleware'] = any(cfg['mw']['tree']) or bool(cfg['mw']['classes'])
-    d['ownhandlers'] = any(not e[2] for e in cfg['eh'])
+    d['custommethods'] = sorted(cfg.get('methods') or []) != STD_METHODS
+    d['middleware'] = 'mw' not in cfg or any(cfg['mw']['tree']) or bool(cfg['mw']['classes'])
+    d['ownhandlers'] = 'eh' not in cfg or any(not e[2] for e in cfg['eh'])
     # routes
     tmplok = True
     routes = []
@@ -503,10 +510,10 @@ def project_dispatch(x, cfg, res):
         whook = False
     if kind == 'res':
         hits = [rt for rt in routes if rt['_path'] == r.get('tmpl')]
-        fn, m = r.get('fn'), r['m'].lower()
-        if len(hits) == 1 and isinstance(fn, str) and (fn == 'on_' + m or fn.startswith('on_' + m + '_')):
+        fn = r.get('fn')
+        if len(hits) == 1 and isinstance(fn, str) and fn.startswith('on_'):
             obs['id'] = hits[0]['rid']
-            obs['sfx'] = asc(fn[len('on_' + m) + 1:])
+            obs['sfx'] = asc('_'.join(fn.split('_')[2:]))      # on_<method>[_<suffix>], read as falcon.inspect reads it
         else:
             whook = False
     elif kind in ('sink', 'static'):
@@ -656,6 +663,10 @@ def _run(ctx, out):
         n_x['expressible' if any_judged else 'fully_skipped'] += 1
         ctx.case({'tests': nodes[:2], 'verdict': vs, 'request': info['req'], 'status': info['status']},
                  nontrivial=any_judged, key=digest(t))
+    if os.environ.get('G01_DUMP'):              # development aid only: every verdict with the tests it came from
+        with open(os.environ['G01_DUMP'], 'w') as f:
+            for (t, info, nodes), v in zip(items, verdicts):
+                f.write(json.dumps({'v': v, 'tests': sorted(set(nodes)), 'info': info, 'x': t['x'], 'c': t['c']}, default=repr) + '\n')
     ctx.extra['exchanges'] = n_x
     ctx.extra['parts'] = counts
     print('G01 exchanges: recorded=%(recorded)d distinct=%(distinct)d expressible(some part judged)=%(expressible)d '
